@@ -29,7 +29,9 @@ Definition delete_first_cfg : cfg := mkCfg elect_renewals elect_retry_ns false f
 Definition no_defer_cfg : cfg := mkCfg elect_renewals elect_retry_ns (c_cfr go_cfg) (c_cfc go_cfg) false.
 
 (* hypotheses on a history *)
-Definition well_formed (acts : list action) := Forall wf_action acts.                (* durations >= 1 s *)
+(* durations >= 1 s, and urgency: the clock does not move while a thread is inside a storage call
+   or between a call's effect and the code's reaction (no AdvanceInCall) *)
+Definition well_formed (acts : list action) := Forall wf_action acts.
 (* AcquireLeadership(p, k) is only called while p has never led k (failed attempts may be repeated) *)
 Definition acquires_once (c : cfg) (np : nat) (acts : list action) := fresh_run c (init np) acts.
 Definition distinct_values (acts : list action) := vals_distinct (acq_calls acts).  (* a value belongs to one participant *)
@@ -53,6 +55,20 @@ Proof.
   exact (fun np acts s i l =>
     step_down_bound_coe_proved go_cfg renewals_at_least_4 np acts s i l goroutine_cancels_on_return).
 Qed.
+
+(* The urgency part of `well_formed` is necessary for the code as it is (finding U3): the retry
+   deadline is only looked at between attempts and no timeout is handed to the storage, so a
+   CompareAndSwap that takes longer than D/2 keeps the context live beyond the bound, and beyond
+   the expiry of the record if it takes longer than D: then a second participant acquires. *)
+Definition slow_call_run : list action :=
+  [AcqCall 0 1 10 40; InsEff 0 ONormal; InsRet 0; Advance 10000000000; Tick 0; AdvanceInCall 41000000000;
+   AcqCall 1 1 11 40; InsEff 1 ONormal; InsRet 1].
+Theorem step_down_bound_and_mutex_refuted_slow_call :
+  exists s l l', run go_cfg (init 2) slow_call_run = Some s /\
+    nth_error (lis s) 0 = Some l /\ nth_error (lis s) 1 = Some l' /\
+    llive l = true /\ llast l + ldur l * sec < now s /\
+    lkey l = lkey l' /\ lown l <> lown l' /\ llive l' = true.
+Proof. eexists. eexists. eexists. split; [vm_compute; reflexivity|]. vm_compute. intuition congruence. Qed.
 
 (* Without the cancel() on return (the code before bbb13e2ab) the statement is false: when a
    participant acquires a key for which it still holds a live context (possible after an external
@@ -164,6 +180,27 @@ Theorem mutex_external_delete_refuted :
     llive l = true /\ llive l' = true /\ lcad l = false /\ lcad l' = false.
 Proof. eexists. eexists. eexists. split; [vm_compute; reflexivity|]. vm_compute. auto 8. Qed.
 
+(* `distinct_values` is what lets a deposed leader notice: with one value for two participants
+   (pkg/vvm passes the configured IP, 127.0.0.1 unless the deployment sets it) the old leader's
+   CompareAndSwap(v, v) keeps succeeding on the newcomer's record after a third-party deletion:
+   both stay live and renewed for ever, where different values end the overlap at the old
+   leader's next renewal *)
+Definition shared_value_run (v' : N) : list action :=
+  [AcqCall 0 1 10 20; InsEff 0 ONormal; InsRet 0; ExtDelete 1;
+   AcqCall 1 1 v' 20; InsEff 1 ONormal; InsRet 1;
+   Advance 5000000000; Tick 0; CasEff 0 ONormal; CasRet 0; Tick 1; CasEff 1 ONormal; CasRet 1;
+   Advance 5000000000; Tick 0; CasEff 0 ONormal; CasRet 0; Tick 1; CasEff 1 ONormal; CasRet 1].
+Theorem mutex_shared_value_never_heals_refuted :
+  exists s l l', run go_cfg (init 2) (shared_value_run 10) = Some s /\
+    nth_error (lis s) 0 = Some l /\ nth_error (lis s) 1 = Some l' /\ lown l <> lown l' /\
+    llive l = true /\ llive l' = true /\ llast l = now s /\ llast l' = now s /\ now s = 10000000000.
+Proof. eexists. eexists. eexists. split; [vm_compute; reflexivity|]. vm_compute. intuition congruence. Qed.
+Example distinct_values_heal :
+  exists s, run go_cfg (init 2)
+    [AcqCall 0 1 10 20; InsEff 0 ONormal; InsRet 0; ExtDelete 1; AcqCall 1 1 11 20; InsEff 1 ONormal; InsRet 1;
+     Advance 5000000000; Tick 0; CasEff 0 ONormal; CasRet 0] = Some s /\ map llive (lis s) = [false; true].
+Proof. eexists. split; vm_compute; reflexivity. Qed.
+
 (* non-vacuity of mutex: the second participant of sample_run was
    refused while the first is live, and takes over after an orderly release *)
 Definition handover_run : list action :=
@@ -229,12 +266,14 @@ Example cleanup_nonvacuous :
 Proof. eexists. eexists. split; [vm_compute; reflexivity|]. vm_compute. auto 8. Qed.
 
 Print Assumptions step_down_bound.
+Print Assumptions step_down_bound_and_mutex_refuted_slow_call.
 Print Assumptions step_down_bound_refuted_no_defer.
 Print Assumptions step_down_bound_no_defer_partial.
 Print Assumptions mutex.
 Print Assumptions mutex_refuted_delete_first.
 Print Assumptions mutex_delete_first_partial.
 Print Assumptions mutex_external_delete_refuted.
+Print Assumptions mutex_shared_value_never_heals_refuted.
 Print Assumptions release_own_only_api.
 Print Assumptions release_own_only_goroutine.
 Print Assumptions release_other_steps_keep_store.
